@@ -166,6 +166,7 @@ var c15IgnoreVariants = []string{
 	"# comment line\n\n  su  \n",              // literal prefix (implicit **), crosses '/'
 	"*.txt\n/link\n",                          // * does not cross '/'; leading '/' is trimmed; literal prefix
 	".sourcegraph/ignore\nsub/\nout\nempty\n", // the ignore file itself; dir/ form; literal prefixes
+	"sub/b#x\na.t#xt\n",                       // '#' inside a pattern is part of the pattern (only a leading '#' starts a comment): nothing matches
 }
 
 // ignore variants >= c15IgnoreLinkBase: .sourcegraph/ignore is not a regular file but a symbolic
